@@ -26,8 +26,8 @@ PROPERTY = "C03"
 # CODE VARIANT FLAGS — the variant of the code the model is compared with (RVariant in Model/AnsiRender.lean,
 # Cfg in Model/Color.lean).  Values match TODAY's /repo.
 # (For checking a pending fix:  VERIF_REPO=<worktree> VERIF_C03_FLAGS=<3 digits> ./check C03  overrides them for one run.)
-ANSI_CACHE_UNKEYED = 1    # 1: Style._make_ansi_codes returns self._ansi whatever colour system it was computed for (F7). 0: repaired.
-STYLED_CONTROL_KEPT = 1   # 1: _render_buffer writes a *styled* control segment to a non-terminal (F27). 0: repaired.
+ANSI_CACHE_UNKEYED = 0    # 1: Style._make_ansi_codes returns self._ansi whatever colour system it was computed for (F7). 0: repaired.
+STYLED_CONTROL_KEPT = 0   # 1: _render_buffer writes a *styled* control segment to a non-terminal (F27). 0: repaired.
 STD_VIA_PALETTE = 0       # C18's flag: 0 = downgrade(STANDARD) keeps indices < 16 (fix 2cec9e1 is in /repo)
 
 if os.environ.get("VERIF_C03_FLAGS"):
@@ -74,7 +74,7 @@ class TtyIO(io.StringIO):
 # TERM=dumb|unknown or not a terminal -> None)
 AUTO_ENV = {
     3: [{"COLORTERM": "truecolor"}, {"COLORTERM": " 24BIT ", "TERM": "xterm"}, {"COLORTERM": "TrueColor", "TERM": "xterm-256color"}],
-    2: [{"TERM": "xterm-256color"}, {"TERM": " SCREEN-256COLOR", "COLORTERM": "yes"}],
+    2: [{"TERM": "xterm-256color"}, {"TERM": " SCREEN-256COLOR", "COLORTERM": "yes"}, {"TERM": "xterm-256color "}, {"TERM": "Tmux-256Color\t", "COLORTERM": "24"}],
     1: [{"TERM": "xterm"}, {"TERM": "xterm-16color"}, {}, {"TERM": "vt100", "COLORTERM": ""}, {"TERM": "rxvt-unicode-256color-x"}],
     0: [{"TERM": "dumb"}, {"TERM": "UNKNOWN", "COLORTERM": "truecolor"}],
 }
@@ -232,7 +232,7 @@ class History:
             cells.extend((ch, look) for ch in text)
         return cells
 
-    def write(self, cfg, segs, mode, route=0):
+    def write(self, cfg, segs, mode, route=0, console=None):
         """`segs` = [(text, handle|None, control)] written through the console of configuration `cfg`."""
         from rich.segment import Segment
 
@@ -240,7 +240,8 @@ class History:
             return
         ctx = self.ctx
         cs, nc, t, lw = cfg
-        console = self.consoles.get(cfg, route)
+        if console is None:
+            console = self.consoles.get(cfg, route)
         real = [Segment(text, None if h is None else self.objs[h], bool(control)) for text, h, control in segs]
         rb = getattr(console, "_render_buffer", None)
         if mode == 0 and rb is None:
@@ -519,6 +520,9 @@ def run(ctx):
     def hist(label):
         return History(ctx, consoles, label)
 
+    # ---- I. the two independent interpreters against each other on arbitrary SGR / OSC 8 streams (every parameter
+    #         0..110 alone and after "everything on", extended colours well- and ill-formed, clears, empty sequences)
+    _interpreter_cross_check(ctx)
     # ---- E1. every attribute x {on, off} x every console configuration (exhaustive)
     for i, a in enumerate(A.ATTRS):
         for val in (True, False):
@@ -589,6 +593,25 @@ def run(ctx):
             for st in styles:
                 h.write(cfg, [("a", None, False), (text, st, True), ("b", st, False)], mode=0 if "\x1b" in text else 1, route=len(text) % 2)
             h.finish()
+    # ---- E8. option handling of Console.__init__: every documented way of naming the colour system / NO_COLOR /
+    #          terminal-ness through the environment and the file, each on a fresh console
+    from rich.console import Console
+
+    for cs, envs in sorted(AUTO_ENV.items()):
+        for env in envs:
+            for nc in (0, 1):
+                for t in (1, 0):
+                    h = hist("E8-options")
+                    st = h.new(Style(color="#ff8800", bgcolor="color(100)", bold=True, link="http://o"))
+                    e = dict(env)
+                    if nc:
+                        e["NO_COLOR"] = "1" if t else ""
+                    con = Console(file=TtyIO(bool(t)), color_system="auto", legacy_windows=False, width=WIDTH, _environ=e)
+                    # not a terminal: colour is off whatever the environment says
+                    h.write((cs if t else 0, nc, t, 0), [("x", st, False), ("y", None, False)], mode=1 + (nc + t) % 2, route=1, console=con)
+                    con.file = TtyIO(bool(t))
+                    h.write((cs if t else 0, nc, t, 0), [("x", st, False), ("\x1b[2J", None, True)], mode=1, route=1, console=con)
+                    h.finish()
     # ---- E6. through the public API only: Style.parse (lru_cache shared by every console) + console.print(Text)
     _public_api_histories(ctx, consoles)
     # ---- E7. the error branches: ill-formed Color objects
@@ -666,6 +689,40 @@ def run(ctx):
     )
 
 
+def _interpreter_cross_check(ctx):
+    rng = ctx.rng
+    all_on = ("SGR", (1, 2, 3, 4, 5, 6, 7, 8, 9, 21, 51, 52, 53, 31, 42))
+
+    def go(tokens, shape):
+        it = A.Interp().feed(tokens)
+        canon = A.canon_tokens(tokens)
+        ctx.case("c03_interp", [A.enc_tokens(canon)], A.enc_cells(it.cells) + "!" + A.enc_look(it.state()), shape=shape,
+                 sample="interp(%r)" % (tokens,))
+
+    for p in range(0, 111):
+        go([("SGR", (p,)), ("T", "a")], "single")
+        go([all_on, ("T", "a"), ("SGR", (p,)), ("T", "b")], "after-all-on")
+        go([all_on, ("SGR", (p, 1, 38, 5, p)), ("T", "b"), ("SGR", (48, 2, p, 0, 255, p)), ("T", "c")], "mixed")
+    for ps in [(), (38,), (38, 5), (38, 2, 1, 2), (38, 7, 1, 1), (48,), (48, 5), (48, 2, 9), (38, 5, 300), (1, 38, 5, 9, 4), (38, 2, 1, 2, 3, 4),
+               (0, 1), (1, 0), (22, 1), (1, 22, 2), (4, 21, 24), (5, 6, 25), (51, 52, 54), (53, 55), (39, 49), (38, 5, 1, 48, 5, 2, 39)]:
+        go([all_on, ("T", "x"), ("SGR", ps), ("T", "y")], "special")
+    params = [0, 1, 2, 3, 4, 5, 6, 7, 8, 9, 21, 22, 23, 24, 25, 27, 28, 29, 30, 37, 38, 39, 40, 47, 48, 49, 51, 52, 53, 54, 55, 90, 97, 100, 107, 5, 2, 200, 10, 26, 50, 56, 89, 98, 108]
+    for _ in range(1500 if ctx.quick else 20000):
+        toks = []
+        for _ in range(rng.randint(1, 7)):
+            r = rng.random()
+            if r < 0.55:
+                toks.append(("SGR", tuple(rng.choice(params) for _ in range(rng.randint(0, 6)))))
+            elif r < 0.8:
+                toks.append(("T", rng.choice(["a", "bc", "é", " "])))
+            elif r < 0.9:
+                toks.append(("OSC8", rng.choice(["", "id=7", "id=*"]), rng.choice(["", "http://u", "x"])))
+            else:
+                toks.append(rng.choice([("LF",), ("CR",), ("TAB",)]))
+        go(toks, "random")
+    ctx.flush()
+
+
 def _public_api_histories(ctx, consoles):
     """Only public calls: `Style.parse` (whose lru_cache hands the same object to every console) and
     `console.print(Text(..., style=<definition>))`.  The definitions are unique per run so that the objects are fresh."""
@@ -734,7 +791,30 @@ def replay(ctx, case):
 
 
 MANIFEST = {
-    "text": "TODO",
-    "note": "TODO",
+    "text": "Lean 4 theorems (Props/C03.lean; no bound on the number or length of segments, the number of Style objects or the length of a "
+    "history; styles are not enumerated) about an executable model of Style._make_ansi_codes (with the per-object _ansi cache as explicit "
+    "state), Style.render, Segment.remove_color and Console._render_buffer, decoded by an independent SGR / OSC 8 interpreter written from "
+    "ECMA-48 / xterm (Model/AnsiTerm.lean). codes_mean_style: for every well-formed style and colour system the generated parameter string, "
+    "interpreted from the default rendition, switches on exactly the attributes that are set and true and selects the down-converted "
+    "foreground / background (C18's downgrade). stream_means_segments / no_leak / following_text_unaffected: for every configuration "
+    "(colour system None|standard|256|truecolor|windows x NO_COLOR x terminal x legacy Windows), every heap of shared Style objects with sound "
+    "caches and every segment list, interpreting what _render_buffer wrote gives exactly the characters to be shown, each with the attributes, "
+    "colours and hyperlink of its style, and the terminal is left in its default state. history_means_segments: the same over every history of "
+    "new styles, copy(), update_link(), _render_buffer on consoles of changing configuration and direct Style.render calls (the cache is state; "
+    "invariant: every cache entry is what would be computed afresh for the colour system it is tagged with). colour_none_no_escape, "
+    "no_color_no_colour_params hold for both code variants; not_terminal_no_control at the level of what is shown, and token-for-token outside "
+    "the NO_COLOR path (_partial). Proved for the repaired code; old_stale_ansi_cache / old_history_violates / old_styled_control_written are "
+    "machine-checked witnesses that today's code violates them. Tie: ~27k (quick) / ~600k (thorough) requests per run, each a whole history "
+    "executed on real rich (Console._render_buffer, console.print, console.capture, Style.render; consoles built explicitly and through the "
+    "option handling of Console.__init__ — NO_COLOR, isatty, colour system 'auto' from TERM/COLORTERM) and on the model, compared in four views "
+    "(characters, tokens, interpreter run, specification), plus the theorems' executable statements evaluated on rich's own output with a "
+    "second, table-driven Python interpreter and an oracle that computes the down-conversion from the raw palettes.",
+    "note": "Partial: the theorems are about tokens; token <-> character serialisation (decimal digits, ';', ESC, OSC 8 framing) is defined "
+    "(AnsiTerm.serialise) and validated on every run by exact comparison of the characters written (c03_chars) and by tokenising the real "
+    "output with harness/term.py (c03_toks); it is proved only as far as 'no ESC in, no ESC out' for colour None. not_terminal_no_control is "
+    "token-level only outside the NO_COLOR path. Assumed / parameters: C18's colour model incl. its float parameter satExc; Style.__hash__ "
+    "agrees with __eq__ (C06) so the dict in remove_color is lookup by ==; the random link id is masked; legacy_windows only as the flag the "
+    "code branches on; jupyter and real Windows consoles are outside the model. Trusted: Lean kernel; axioms propext/Classical.choice/Quot.sound; "
+    "translator for the palettes; the correspondence harness (generators, term.py tokenizer, lib_c03.Interp).",
     "design_ref": "DESIGN.md section 7, C03",
 }
